@@ -57,7 +57,11 @@ func (p *TriggerPool) Start(ctx context.Context) context.Context {
 	// context.Done() and context.Err() for context that can be cancelled use a Lock.
 	// To avoid frequent locking - use an atomic.Bool for cancellation instead of checking the
 	// context on each iteration
+	// the goroutine stopping the pool counts as a running worker, so that the pool is only
+	// complete once the jobs still pending at that point have been recorded as dropped
+	p.manager.runningWorkers.Add(1)
 	go func() {
+		defer p.manager.runningWorkers.Done()
 		<-workerCtx.Done()
 		p.stop()
 	}()
@@ -70,17 +74,40 @@ func (p *TriggerPool) running() bool {
 }
 
 func (p *TriggerPool) stop() {
-	p.stopWorkers.Store(true)
-	p.sendJobsForExecution(0)
+	jobsDiscarded := p.halt()
+
+	for range jobsDiscarded {
+		p.manager.activeScenario.RecordDroppedIteration()
+	}
 }
 
 func (p *TriggerPool) maxIterationsReached() {
-	p.jobsToExecute.set(0)
+	// jobs that can't start only because the limit has been reached are discarded silently
+	p.halt()
 	p.workerCtxCancel()
+}
+
+// halt stops the pool: from now on no jobs are accepted. It returns the number of jobs
+// that were still pending.
+func (p *TriggerPool) halt() int64 {
+	p.jobsAvailableCond.L.Lock()
+	defer p.jobsAvailableCond.L.Unlock()
+
+	p.stopWorkers.Store(true)
+	jobsDiscarded := p.jobsToExecute.set(0)
+	p.jobsAvailableCond.Broadcast()
+
+	return jobsDiscarded
 }
 
 func (p *TriggerPool) sendJobsForExecution(numJobs int) {
 	p.jobsAvailableCond.L.Lock()
+
+	// a tick racing with the shutdown of the pool must not leave jobs behind
+	if !p.running() {
+		p.jobsAvailableCond.L.Unlock()
+		return
+	}
 
 	jobsDiscarded := p.jobsToExecute.set(numJobs)
 	p.jobsAvailableCond.Broadcast()
